@@ -19,8 +19,19 @@ leaks by design: `clear_spec`, `drain_spec`, … in `ApiBulk.lean` give "at most
 EVERY environment otherwise (any hasher / `Eq` / predicate answers, any allocator answers).
 `into_iter` and `clone_from` are not `MapOp`s; their per-call accounting is `intoIter_spec`,
 `cloneFrom_spec` in `Hb/Proofs/ApiBulk.lean`.
+
+Extended scope (`released_exactly_once_all_calls`, `LedgerX.lean`): the same ledger over `MapOpX`
+histories — additionally `entry` / `entry_ref` / `rustc_entry` / `raw_entry_mut` with any method chain,
+`raw_entry`, `try_insert`, `extend`, `get_many_mut`, `Index`; `insertedKXs/VXs` = objects the caller
+passes in (the key of `entry`, the values held by the chain, the elements of `try_insert`/`extend`, …),
+`returnedKX/VX` = objects handed back (removed entries, `into_key`, the rejected value inside
+`OccupiedError`, values replaced by `OccupiedEntry::insert`, …). Histories WITH observed panics:
+`at_most_once_with_panics` (`LedgerPanic.lean`): nothing is dropped or returned twice, whatever
+unwinds.
 -/
 import Hb.Proofs.History
+import Hb.Proofs.LedgerX
+import Hb.Proofs.LedgerPanic
 namespace Hb.C03
 open Hb
 
@@ -99,6 +110,41 @@ theorem never_allocated_owns_nothing (hc : CfgOk cfg) (env : Env) :
         wf.log = w0.log :=
   Hb.never_allocated_owns_nothing hc env
 
+/-- The ledger over the WHOLE modelled API (every entry-API family with any chain, try_insert, extend,
+    get_many_mut, Index, interleaved with the basic calls), every environment, histories without an
+    observed panic: after the drop of the collection every key object and value object that was passed
+    in was dropped exactly once or handed back exactly once; nothing stays allocated; every free is
+    matched. -/
+theorem released_exactly_once_all_calls (hc : CfgOk cfg) (hnd : cfg.needsDrop = true) (env : Env)
+    (hdp : ∀ c e, env.dropPanics c e = false) (ops : List MapOpX)
+    (w0 : World) (h0 : w0.t = Raw.new cfg.W) (hl0 : w0.log = []) (hnf : hx_NoForget ops)
+    {obs : List Map.ObsX} {wf : World} (hrun : Map.runX cfg env ops w0 = some (obs, wf))
+    (hret : ∀ o ∈ obs, ∃ r, o = .ret r) :
+    (List.Perm (kidsOf wf.t.elems ++ droppedK wf.log ++ returnedKX (ops.zip obs)) (insertedKXs ops) ∧
+     List.Perm (vidsOf wf.t.elems ++ droppedV wf.log ++ returnedVX (ops.zip obs)) (insertedVXs ops) ∧
+     hs_AllocInv cfg wf) ∧
+    ∃ wd, dropInnerTable cfg env wf.t { wf with t := Raw.new cfg.W } = .ok wd ∧
+      wd.t = Raw.new cfg.W ∧
+      List.Perm (droppedK wd.log ++ returnedKX (ops.zip obs)) (insertedKXs ops) ∧
+      List.Perm (droppedV wd.log ++ returnedVX (ops.zip obs)) (insertedVXs ops) ∧
+      liveBlocks wd.log = [] ∧ freesMatched wd.log := by
+  obtain ⟨k, v, a, _⟩ := runX_ledger hc hnd env ops w0 h0 hl0 hnf hrun hret
+  exact ⟨⟨k, v, a⟩, dropAllX_ledger hc hnd env hdp ops w0 h0 hl0 hnf hrun hret⟩
+
+/-- Histories in which calls DO unwind (any callback, any position): stored + dropped + returned
+    objects form a sub-multiset of those passed in — nothing is released twice, nothing that was
+    released is still stored — all frees are matched and the table's own block is live. -/
+theorem at_most_once_with_panics (hc : CfgOk cfg) (hnd : cfg.needsDrop = true) (env : Env)
+    (ops : List MapOp) (w0 : World) (h0 : w0.t = Raw.new cfg.W) (hl0 : w0.log = [])
+    (hnf : hs_NoForget ops) {obs : List Map.Obs} {wf : World}
+    (hrun : Map.run cfg env ops w0 = some (obs, wf)) :
+    List.Subperm (kidsOf wf.t.elems ++ droppedK wf.log ++ returnedK (ops.zip obs)) (insertedK ops) ∧
+    List.Subperm (vidsOf wf.t.elems ++ droppedV wf.log ++ returnedV (ops.zip obs)) (insertedV ops) ∧
+    freesMatched wf.log ∧ List.Subperm (hs_blockOf cfg wf.t) (liveBlocks wf.log) :=
+  run_ledger_panics_subperm hc hnd env ops w0 h0 hl0 hnf hrun
+
+#print axioms released_exactly_once_all_calls
+#print axioms at_most_once_with_panics
 #print axioms released_exactly_once_keys
 #print axioms released_exactly_once_values
 #print axioms returned_not_dropped
